@@ -206,5 +206,11 @@ def main(tier):
                      "exception-raising inputs (synthetic ISA with raising hooks + every importable ISA module); distinct by history prefix")
 
 
+
+
+def replay(path):
+    import json
+    return isa.replay_decode_case(json.load(open(path)))
+
 if __name__ == "__main__":
     sys.exit(main(sys.argv[1] if len(sys.argv) > 1 else "quick"))
